@@ -82,6 +82,9 @@ def oracle_case(real_types, summary, code, uses, type_mod):
     """the property on the real code: API answers vs parsed output"""
     f = []
     items = {it["name"]: it for it in summary["items"]}
+    # under `type_mod` the API qualifies the identifiers of generated types with the module (`types::Foo`); inside the module
+    # the same type is written `Foo`
+    unq = (lambda s_: s_.replace(type_mod + "::", "")) if type_mod else (lambda s_: s_)
     # two generated items of ONE name (the name-collision findings of C01 / C08 / C16): "the item the reported name resolves to"
     # is not defined for that name, so it is not judged here
     dup_names = {it["name"] for it in summary["items"] if sum(1 for o in summary["items"] if o["name"] == it["name"]) > 1}
@@ -92,7 +95,7 @@ def oracle_case(real_types, summary, code, uses, type_mod):
         it = items.get(nm)
         if it is None: f.append((nm, "reported name resolves to no generated item")); continue
         if t["kind"] == "struct":
-            api = [(p["name"], ns(p["type_ident"]), p["required"]) for p in t["props"]]
+            api = [(p["name"], unq(ns(p["type_ident"])), p["required"]) for p in t["props"]]
             gen_ = [(fl["name"], ns(fl["ty"]), not any(a == "default" or a.startswith("default=") for a in ns(fl["serde"]))) for fl in it["fields"]]
             if api != gen_: f.append((nm, "properties != fields", api[:4], gen_[:4]))
         if t["kind"] == "enum":
@@ -101,7 +104,7 @@ def oracle_case(real_types, summary, code, uses, type_mod):
             gen_ = [(v["name"], v["kind"]) for v in it["variants"]]
             if api != gen_: f.append((nm, "variants differ", api[:4], gen_[:4]))
         if t["kind"] == "newtype":
-            if not it["fields"] or ns(it["fields"][0]["ty"]) != ns(t["inner"]["type_ident"]):
+            if not it["fields"] or ns(it["fields"][0]["ty"]) != unq(ns(t["inner"]["type_ident"])):
                 f.append((nm, "inner != field type"))
         has_b = nm in summary.get("builders", [])
         if bool(t.get("builder")) != (has_b and t["kind"] == "struct"):
